@@ -161,6 +161,15 @@ func (w *zstdByteStreamWriter) Close() error {
 	return err
 }
 
+// abort terminates the upload without finishing it, so that the server
+// discards what was sent so far.
+func (w *zstdByteStreamWriter) abort() {
+	if w.err == nil {
+		w.cancel()
+		w.client.CloseAndRecv()
+	}
+}
+
 const resourceNameHeader = "build.bazel.remote.execution.v2.resource-name"
 
 // shouldUseZSTDCompression checks if ZSTD compression should be used.
@@ -307,12 +316,12 @@ func (ba *casBlobAccess) Put(ctx context.Context, digest digest.Digest, b buffer
 
 		if err := b.IntoWriter(encoder); err != nil {
 			encoder.Close()
-			byteStreamWriter.Close()
+			byteStreamWriter.abort()
 			return err
 		}
 
 		if err := encoder.Close(); err != nil {
-			byteStreamWriter.Close()
+			byteStreamWriter.abort()
 			return err
 		}
 
